@@ -33,6 +33,16 @@ CLAIMED["C08"] = dict(cat="other", technique="writer/reader index-map agreement 
    note="Trusted: clang front end, isa-extract, sympy. CPU path only. Found and repaired two genuine defects (see known_findings.json 'fixed'). "
         "Does not decide numerical bit-identity beyond identical index/arithmetic shape per bunch.",
    ref="DESIGN.md §3 C08")
+CLAIMED["C19"] = dict(cat="other", technique="call-argument role agreement (resolved constructors), symbolic folding of the modulation expressions, exactly-once/ordering dataflow on the CFG",
+   text="Decides on the code shape, for every parameter set and step count: each DynamicRFKickMap constructor (and each construction in main) hands "
+        "every argument to the base/constructor parameter of the same role, so the linear/sinusoidal model reached is the one requested; the "
+        "queued (phase, amplitude) folds to (_syncphase, 1) when all amplitudes are zero = the static constructors' arguments; per apply() exactly "
+        "one entry is used, recorded and popped, in that order, on every CFG path; the drain moves out everything, clears, and every drain site feeds "
+        "appendRFKicks; queue length and loop bound are one variable. These are necessary and, together with the shared _calcKick code, sufficient "
+        "structural conditions for the statement; the numerical kick itself is not evaluated.",
+   note="Trusted: clang front end, isa-extract, sympy, documented std::queue/vector semantics; alias table main-variable -> parameter role (12 entries, in the rule file). "
+        "One genuine defect found and repaired (F1). Noise statistics/spectrum not decided.",
+   ref="DESIGN.md §3 C19")
 NOT_YET = "check not built yet in this round (static rule designed in DESIGN.md §3, not implemented)"
 NA = {}
 
